@@ -24,6 +24,13 @@ func installAuto() {
 	}
 }
 
+// setMapOrder fixes the iteration order of the library's map loops for the
+// coming run; called by the controller before the tasks start.
+func setMapOrder(desc bool) bool {
+	jsimy.Descending = desc
+	return desc
+}
+
 // setClockShift makes the library's clock (engine B) the simulated clock
 // plus shift seconds; called by the controller before the tasks start.
 func setClockShift(shift int64) int64 {
